@@ -159,7 +159,7 @@ class FormGen:
         rng = self.rng
         if self.lists and rng.random() < 0.4:
             return rng.choice(list(self.lists))
-        ln = rng.choice(["yn", "colors", "l1", "l2", "list_a", "opts", "c"]) + (str(len(self.lists)) if self.lists else "")
+        ln = rng.choice(["yn", "colors", "l1", "l2", "list_a", "opts", "cl"]) + (str(len(self.lists)) if self.lists else "")
         items = []
         for i in range(rng.randint(1, 5)):
             items.append({"list_name": ln, "name": rng.choice(["a", "b", "c", "x", "y", "n1", "n2", "opt"]) + str(i)})
@@ -226,6 +226,13 @@ class FormGen:
                     emit(kd)
                     out.append({"type": f"end {kd.kind}"})
                 else:
+                    if kd.type in ("xml-external", "csv-external") and not self.k.get("external_in_repeat"):
+                        a = kd.parent
+                        while a is not None:
+                            if a.kind == "repeat":
+                                kd.type = "text"  # known crash class F32: external instance inside a repeat
+                                break
+                            a = a.parent
                     row = {"type": kd.type, "name": kd.name}
                     base = kd.type.split(" ")[0]
                     if base in ("calculate",):
